@@ -903,6 +903,9 @@ def c20_plots(inp):
                     un += pairs(off[:, 0], off[:, 1])
         return st, un
     for trial in range(40):
+        # odd trials leave every diagram of the trial open while the next ones are drawn (a notebook session): a diagram must not
+        # depend on, or draw into, figures that earlier calls left behind
+        plt.close("all")
         n0, n1 = int(rng.randint(2, 9)), int(rng.randint(2, 12))
         Fn, Xi, _, _ = crafted_tables(n0, n1, 2, trial)
         Lab = (rng.rand(n0, n1) < 0.5).astype(int)
@@ -923,7 +926,8 @@ def c20_plots(inp):
                 else:
                     fig, ax = plot.stab_plot(Fn.copy(), Lab.copy(), 1, n1 - 1 if trial % 2 else n1 + 2, ordmin=0, hide_poles=hide, Fn_cov=Fc)
                 st, un = stable_unstable(ax)
-                plt.close("all")
+                if trial % 2 == 0:
+                    plt.close("all")
             except Exception as e:      # noqa: BLE001
                 return {"reproduced": True, "detail": f"stab_plot raised {type(e).__name__}: {e}"}
             if st != want_st or (not hide and un != want_un) or (hide and sum(un.values())):
@@ -935,7 +939,8 @@ def c20_plots(inp):
             try:
                 fig, ax = plot.cluster_plot(Fn.copy(), Xi.copy(), Lab.copy(), hide_poles=hide)
                 st, un = stable_unstable(ax)
-                plt.close(fig)
+                if trial % 2 == 0:
+                    plt.close(fig)
             except Exception as e:      # noqa: BLE001
                 return {"reproduced": True, "detail": f"cluster_plot raised {type(e).__name__}: {e}"}
             if st != want_st or (not hide and un != want_un):
@@ -949,7 +954,8 @@ def c20_plots(inp):
             try:
                 fig, ax = plot.CMIF_plot(Sv.copy(), fr.copy(), nSv=nsv)
                 lines = [ln.get_xydata() for ln in ax.get_lines()]
-                plt.close(fig)
+                if trial % 2 == 0:
+                    plt.close(fig)
             except Exception as e:      # noqa: BLE001
                 return {"reproduced": True, "detail": f"CMIF_plot(nSv={nsv}) raised {type(e).__name__}: {e}"}
             n = nc if nsv == "all" else nsv
@@ -1001,7 +1007,8 @@ def c20_plots(inp):
                 finally:
                     setattr(mod.plot, target, real)
                 ctx = f"{cls.__name__}.{m}({kw})"
-                plt.close("all")            # (the artists stay readable after the figure is closed)
+                if len(plt.get_fignums()) > 12:     # earlier diagrams stay open while the next ones are drawn (as in a notebook session)
+                    plt.close("all")
                 if not seen:
                     return {"reproduced": True, "detail": f"{ctx} never called plot.{target}"}
                 # what counts is what is DRAWN (a method may legitimately trim empty rows before calling the diagram function)
@@ -1032,7 +1039,7 @@ def c20_plots(inp):
                 for arg in ("step", "ordmax", "ordmin"):
                     if arg in seen and hasattr(rp, arg) and seen[arg] != getattr(rp, arg):
                         return {"reproduced": True, "detail": f"{ctx}: {arg}={seen[arg]} reached plot.{target}, run_params.{arg}={getattr(rp, arg)}"}
-    return {"reproduced": False, "detail": "stabilisation / cluster / singular-value diagrams draw exactly the expected markers and curves on 40 random tables; the classes' plot methods draw one marker per pole of the stored tables (hide_poles on and off, with and without freqlim)"}
+    return {"reproduced": False, "detail": "stabilisation / cluster / singular-value diagrams draw exactly the expected markers and curves on 40 random tables; the classes' plot methods draw one marker per pole of the stored tables (hide_poles on and off, with and without freqlim); on every second table and for all class methods the earlier diagrams were left open"}
 
 
 # ----------------------------------------------------------------------------------
@@ -2712,7 +2719,7 @@ def flow_ssi(inp):
     y = rng.randn(400, 4)
     hc = dict(conj=False, xi_max=1.0, mpc_lim=0.0, mpd_lim=10.0, cov_max=1e9)
     for clsname, meth in (("SSIdat", None), ("SSIcov", None), ("SSIcov", "cov_R"), ("SSIcov", "cov_mm")):
-        for refs in (None, [2, 0], [1, 0, 2], [3, 1], [0, 1], [3]):
+        for refs in (None, [2, 0], [1, 0, 2], [3, 1], [0, 1], [3], [2, 0, 3, 1], [0, 1, 2, 3], [1, 0]):
             br, ordmax, fs = int(rng.randint(3, 6)), int(rng.randint(3, 7)), float(rng.choice([10.0, 64.0]))
             ordmax = min(ordmax, (br + 1) * (4 if refs is None else len(refs)) - 1)      # no more orders than the Hankel matrix has columns
             seen, restore = _spy_all(assi.ssi, ("build_hank", "SSI_fast", "SSI_poles"))
@@ -2771,7 +2778,7 @@ def flow_ssi(inp):
         p_, _ = seen.get("SSI_poles", ({}, None))
         if not p_ or p_["Obs"] is not out[0] or p_["AA"] is not out[1] or p_["CC"] is not out[2] or abs(float(p_["dt"]) - 1 / fs) > 1e-15:
             return {"reproduced": True, "detail": f"{clsname}.run(method={meth}): SSI_poles did not receive SSI_multi_setup's Obs, A, C with dt = 1/fs"}
-    return {"reproduced": False, "detail": "run() of SSIdat, SSIcov (cov_mm, cov_R), SSIdat_MS, SSIcov_MS hands data.T, the listed reference rows, br, method, ordmax, dt to the kernels and chains their outputs (6 reference selections)"}
+    return {"reproduced": False, "detail": "run() of SSIdat, SSIcov (cov_mm, cov_R), SSIdat_MS, SSIcov_MS hands data.T, the listed reference rows, br, method, ordmax, dt to the kernels and chains their outputs (9 reference selections, among them every channel listed in another order)"}
 
 
 def flow_plscf(inp):
